@@ -35,6 +35,9 @@ type process struct {
 	mbuffer  []Envelope
 	// set by cleanup: the process is done and must not be started again.
 	stopped bool
+	// stopCtx is done once cleanup has finished.
+	stopCtx  context.Context
+	stopDone context.CancelFunc
 }
 
 func newProcess(e *Engine, opts Opts) *process {
@@ -47,6 +50,7 @@ func newProcess(e *Engine, opts Opts) *process {
 		context: ctx,
 		mbuffer: nil,
 	}
+	p.stopCtx, p.stopDone = context.WithCancel(context.Background())
 	return p
 }
 
@@ -204,6 +208,7 @@ func (p *process) cleanup(cancel context.CancelFunc) {
 	if cancel != nil {
 		defer cancel()
 	}
+	defer p.stopDone()
 
 	if p.context.parentCtx != nil {
 		p.context.parentCtx.children.Delete(p.pid.ID)
